@@ -200,3 +200,12 @@ Theorem semitones_octave_b64 :
     semitones_to_rate powf2 (Z64 12) = powf2 (Z64 1) /\ semitones_to_rate powf2 (Z64 0) = powf2 (Z64 0) /\
     semitones_to_rate powf2 (Z64 (-12)) = powf2 (Z64 (-1)) /\ semitones_to_rate powf2 (Z64 24) = powf2 (Z64 2).
 Proof. exact semitones_b64_octave. Qed.
+
+(** In binary32, for every finite panning at or beyond hard left (hard right) the right (left) channel of a
+    finite frame is exactly zero and the other channel is the sample times 1 times sqrt 2, rounded. *)
+Theorem panning_extremes_b32 :
+  (forall (l r p : f32), is_finite p = true -> is_finite r = true -> (B2R p <= -1)%R ->
+     fst (panned l r p) = mul32 (mul32 l (Z32 1)) SQRT2_32 /\ exists s, snd (panned l r p) = B754_zero s) /\
+  (forall (l r p : f32), is_finite p = true -> is_finite l = true -> (1 <= B2R p)%R ->
+     snd (panned l r p) = mul32 (mul32 r (Z32 1)) SQRT2_32 /\ exists s, fst (panned l r p) = B754_zero s).
+Proof. exact (conj panned32_hard_left panned32_hard_right). Qed.
